@@ -228,9 +228,10 @@ func getGroupPath(prefix, path string) string {
 // It checks if the specification ends with a '*' or if the offer has the prefix of the specification.
 // Returns true if the offer matches the specification, false otherwise.
 func acceptsOffer(spec, offer string, _ headerParams) bool {
-	if len(spec) >= 1 && spec[len(spec)-1] == '*' {
+	if spec == "*" {
 		return true
-	} else if strings.HasPrefix(spec, offer) {
+	} else if utils.EqualFold(spec, offer) {
+		// charset, content-coding and language tokens are case-insensitive
 		return true
 	}
 	return false
